@@ -38,6 +38,9 @@ def correspondence(ctx):
         elif r.length > 20 and k > 4:
             r.length = 20
         recs.append(r)
+    # the same custom required characters divided differently among the RequireSets, right after the original in the same
+    # process: a different recipe with (in general) a different count
+    recs = chargen.with_resplits(rng, recs)
     for r in recs:
         cases.append(("recipe " + r.tokens(), {"recipe": r.to_json(), "_recipe": r}))
         fams = r.live_families()
